@@ -27,9 +27,16 @@ parameters on given inputs (base_kernel(x1, x2).to_dense(), mean constant, likel
   * InterpolatedPredictionStrategy (KISS-GP): d = 1, 2, different grid sizes per dimension, fixed bounds and data-determined
     grid, all of {Cholesky, CG} x fast_pred_var x fast_pred_samples; the fantasy (WISKI) update vs the dense conditional on
     the enlarged data set; a sequence of calls with different settings on one model; a prediction outside the range of the
-    data-determined grid.
+    data-determined grid; for the data-determined grid also the premise itself: k(Xb, Xb) == the Xb block of k(cat(X, Xb))
+    (one kernel matrix for the joint inputs) and the grid is kept while the inputs stay inside it.  FixedNoiseGaussianLikelihood
+    (prediction, fantasy with fantasy noise).  Batch shape (2,) models (batched data, hyper-parameters, noise) for all three
+    strategies.
   * SGPRPredictionStrategy: {Cholesky, CG} x fast_pred_var x sgpr_diagonal_correction, at test inputs, at the training
-    inputs, Gaussian and fixed-noise likelihoods.
+    inputs, Gaussian and fixed-noise likelihoods.  At the training inputs the cross block is Q_xx, which is what
+    kernel(cat(X, X)).to_dense() holds (the correction only touches the diagonal of the joint matrix).  [Under the other
+    possible reading - the same point shares the corrected variance, cross block Q_xx + diag(K_xx - Q_xx), which is what the
+    strategy's MEAN uses - the strategy's COVARIANCE (it drops that diagonal) is the quantity that disagrees: the two halves
+    of the prediction contradict each other under either reading.]
   * RFFPredictionStrategy: 2D < n and 2D >= n features, with / without ScaleKernel, {Cholesky, CG} x fast_pred_var.
 (3) gpytorch.utils.interpolation.Interpolation: rows of W sum to one (everywhere in the grid), W is the identity at the
     grid nodes, W q(grid) = q(x) for (tensor products of) quadratics q at interior points (g[1] <= x < g[-2] in every
@@ -74,7 +81,7 @@ def run(tier="quick", seed=0, only=None):
     D = torch.float64
     S = gpytorch.settings
     thorough = tier != "quick"
-    ev, seen, violations, samples, skipped = 0, set(), [], [], []
+    ev, seen, violations, samples = 0, set(), [], []
 
     def rec(key, ok, detail="", inp=None):
         nonlocal ev
@@ -136,6 +143,8 @@ def run(tier="quick", seed=0, only=None):
         st.enter_context(torch.no_grad())
         st.enter_context(S.fast_pred_var(fpv))
         st.enter_context(S.fast_pred_samples(fps))
+        # fast_pred_var / fast_pred_samples are exact only at full rank: keep the root decompositions at full rank (grids up to 6x7x8 = 336)
+        st.enter_context(S.max_root_decomposition_size(1000))
         if not chol:
             for c in (S.max_cholesky_size(0), S.cg_tolerance(1e-8), S.eval_cg_tolerance(1e-8), S.max_cg_iterations(200)):
                 st.enter_context(c)
@@ -948,11 +957,8 @@ def run(tier="quick", seed=0, only=None):
                     cmp(f"{tag}/covariance", cov, ec, inp, tol_for(chol, base=1e-5 if 2 * nfeat >= n else 1e-6))
                 guarded(tag, pred, inp)
 
-    if skipped:
-        samples.append({"case": "skipped", "ok": True, "detail": "; ".join(skipped)[:160]})
     return {"name": "C09 structured kernels / prediction strategies vs dense meaning (float64)", "evaluations": ev, "distinct_nontrivial": len(seen),
             "bound": ("tasks 1..4, ranks 1..3, kernel / input batch shapes () (2,) (3,2); grids of 2..15 points per dimension, d <= 3 (4 thorough), ragged; n <= 14 train / 5 test / 3 fantasy points "
                       "(<= 40 thorough), m <= 6 inducing points, 3..6 (<= 20) random features; settings {cholesky, cg} x fast_pred_var x fast_pred_samples x sgpr_diagonal_correction x use_toeplitz; "
                       "setting sequences of length <= 5 on one model; refinement sequences 16..128 (1-d), 10..40 (2-d)"),
-            "rule": "a case = (family, configuration incl. sizes / batch shapes / settings, quantity); distinct by that key", "samples": samples[:4], "violations": violations,
-            "skipped": skipped, "wall_s": round(time.time() - t0, 2)}
+            "rule": "a case = (family, configuration incl. sizes / batch shapes / settings, quantity); distinct by that key", "samples": samples[:3], "violations": violations, "wall_s": round(time.time() - t0, 2)}
